@@ -350,7 +350,7 @@ def mon_each(run):
     out = mon_each_environment(run)
     if run.mode != "each" or not run.finished_ok() or run.stopped_by_budget() or run.collections_disagree():
         return out
-    dead = set(run.summary["dead"])
+    dead = set(run.summary["dead"]) | set(run.writeoff)       # written off = lost, as far as the controller is concerned
     nn = run.cfg["numnodes"]
     for n in range(nn):
         if n in dead:
@@ -358,7 +358,7 @@ def mon_each(run):
         got = [i for i, _ in run.ran.get(n, [])]
         if got != list(range(len(run.coll[n]))):
             out.append((sig(run, kind="each-worker-did-not-run-everything"), {"worker": n, "ran": got}))
-    if len(dead) == 1 and run.nworkers == nn + 1:
+    if len(dead) == 1 and run.nworkers == nn + 1 and not run.writeoff:
         d = next(iter(dead))
         ci = run.crash_info.get(d, {})
         if d < nn and run.coll[nn] == run.coll[d] and (ci.get("running") is not None or ci.get("pending_first") is not None):
@@ -442,6 +442,12 @@ def mon_restart_budget(run):
             late = [o for k, o in run.outs if k > first and o[0] == "send" and o[2][0] in ("run", "runall", "steal")]
             if late:
                 out.append((sig(run, kind="dispatch-after-budget-exhausted"), {"cmds": late[:3]}))
+            # "... and ends with a failing status": the status of a run is failing iff some failed report was published
+            # (test, crash or collection report) or the run is interrupted
+            failed = any((o[0] == "h_report" and o[4] == 1) or o[0] == "h_crashreport" or (o[0] == "h_collectreport" and o[2] == 1)
+                         or o[0] == "colldiff" for _k, o in run.outs)
+            if run.result == ["finished"] and not failed:
+                out.append((sig(run, kind="budget-exhausted-but-the-run-ends-as-success"), {"summary_step": first}))
     return out
 
 
